@@ -131,9 +131,17 @@ class Rename:
             job_set.finished_job()
         if self._is_renaming_a_module():
             resource = self.old_pyname.get_object().get_resource()
-            if self._is_allowed_to_move(resources, resource):
+            if self._is_allowed_to_move(
+                resources, resource
+            ) and self._is_called_like(resource):
                 self._rename_module(resource, new_name, changes)
         return changes
+
+    def _is_called_like(self, resource):
+        """The renamed name is the module's own name, not an alias of it"""
+        if resource.is_folder():
+            return resource.name == self.old_name
+        return resource.name[:-3] == self.old_name
 
     def validate_changes(
         self,
